@@ -69,6 +69,30 @@ func c14Cases(thorough bool) []c14Case {
 			}
 		}
 	}
+	// key NAMES that collide under plausible normalisations (numeric value, case folding, trimming, length, a bounded prefix, Unicode
+	// equivalence): an ordering that is only a preorder on such keys leaves their relative order to the map iteration
+	long := strings.Repeat("k", 40)
+	keySets := [][]string{
+		{"7", "07", "+7", "007"}, {"0", "-0", "+0", "00"}, {"k", "K", "\u212a", " k"}, {"a", " a", "a ", "a\t"}, {"", "a", "aa", "aaa"}, {"ab", "ba", "Ab", "bA"},
+		{long + "1", long + "2", long + "3", long + "4"}, {"10", "9", "x", "1e1"}, {"1.0", "1", "1.", "01.0"}, {"\u00e9", "e\u0301", "e", "E"}, {"a/b", "a~1b", "a.b", "a~b"},
+	}
+	maxK := 4
+	for _, ks := range keySets {
+		for n := 2; n <= maxK; n++ {
+			for _, pat := range patterns(3, n)[lenPrefix(3, n):] {
+				two := NInt(KInt, false, 2)
+				var kv []*Node
+				// the colliding keys are used from the END of the set for n=2 as well (both pairs of neighbours get covered over n=2,3)
+				for i, p := range pat {
+					kv = append(kv, str(ks[(i+n)%len(ks)]), pick(p, one, two, NNilAny()))
+				}
+				d := NMap(TStr, TAny, str("m"), NMap(TStr, TAny, kv...))
+				for _, q := range []string{"any", "all"} {
+					out = append(out, c14Case{q + " m as _, v { v == 1 }", d, "colliding-key-names"})
+				}
+			}
+		}
+	}
 	// maps whose key type is not exactly string (quantifiers over them are documented errors; whatever the
 	// implementation does with them must still not depend on the iteration order)
 	for n := 2; n <= 3; n++ {
